@@ -853,7 +853,13 @@ func runHistory(idx int, kind, prog string, ops []string) *histRec {
 		w.fault = &discardFault{sys: w.sys, order: map[string]int{}}
 		w.sys.Hook = w.fault.hook
 		w.sys.After = w.fault.after
-		w.sess = exec.Start(exec.Bigmachine(w.sys), exec.Parallelism(4))
+		if kind == "vsys1" {
+			// ONE machine (2 procs): whatever is recomputed after a Discard or a later use
+			// lands on the machine that ran it before (worker-side state of re-run tasks)
+			w.sess = exec.Start(exec.Bigmachine(w.sys), exec.Parallelism(2))
+		} else {
+			w.sess = exec.Start(exec.Bigmachine(w.sys), exec.Parallelism(4))
+		}
 	}
 	ctx := context.Background()
 	for i := range ops {
@@ -1357,8 +1363,19 @@ func main() {
 		jobs = append(jobs, job{0, f[0], f[1], strings.Split(f[2], ","), "only"})
 	} else {
 		for l := 1; l <= depth; l++ {
-			for _, kind := range []string{"local", "vsys"} {
+			for _, kind := range []string{"local", "vsys", "vsys1"} {
 				for _, space := range []string{"A", "B", "C", "D", "F"} {
+					if kind == "vsys1" {
+						// one-machine cluster: space A (no Kill) on the 2-shard and the shuffling program
+						if space == "A" && l <= depth-1 {
+							for _, prog := range []string{"s2", "sh"} {
+								for _, h := range enumerate(kind, l) {
+									jobs = append(jobs, job{len(jobs), kind, prog, h, space})
+								}
+							}
+						}
+						continue
+					}
 					if space == "F" {
 						// discard-under-fault histories: cluster only, depend on the program
 						if kind == "vsys" {
@@ -1582,6 +1599,8 @@ func main() {
 	for _, prog := range progs {
 		depthTable["F/vsys/"+prog] = depth
 	}
+	depthTable["A/vsys1(one machine)/s2"] = depth - 1
+	depthTable["A/vsys1(one machine)/sh"] = depth - 1
 	layerH := map[string]interface{}{
 		"depth":                     depthTable,
 		"alphabet":                  "space A: R | S<i> P<i> H<i> X<i> for i in live results (max 2) | K0 K1 (cluster only).  space B: R then {D0 A0 B0 Q0 U0 X0 | K0 (cluster only)}* with at least one direct redistribution; D=Reduce, A=Reshard(r,2), B=Reshard(r,3), Q=Repartition(r, k mod n), U=Repartition(r, (2k+1) mod n), each applied DIRECTLY to the result.  space C: R then {J0 C0 Q0 X0 | K0 (cluster only)}* with at least one J0/C0; J=Cogroup(Reshard(r,2),Repartition(r,(2k+1) mod n)), C=Cogroup(Reduce(r,+), r), rows folded to (k, counts and sums of both groups).  space D: R, one of D0 A0 B0 O0 Q0 U0 J0 C0 (O=Reshard(r,1)), then {P0 H0 X0 O0 | K0 (cluster only)}* with at least one P0/H0.  space F (cluster only): R, F<T|B|A><n> (Discard with a failing Worker.Discard RPC), then words over {P0 H0 S0 X0}",
@@ -1601,7 +1620,7 @@ func main() {
 		"signatures_first_pass":     len(sigOrder),
 		"signatures_not_confirmed":  unconfirmed,
 		"unconfirmed":               unconfDetail,
-		"rule":                      "four spaces of histories, each history replayed in a fresh session (state de-duplication is used for counting only). Space A = all histories over the general alphabet (no direct redistribution) up to the depth in the depth table; space B = all histories R·w, w over five DIFFERENT direct redistributions of r0 plus Discard and (cluster) Kill, containing at least one direct redistribution, up to the depth in the table, so that every ordered pair of direct re-shuffles of one result occurs, also with a Discard or Kill in between; space C = all histories R·w, w over {J0 C0 Q0 X0, K0 on the cluster} containing at least one J0 or C0, where J/C are ONE Func that sends the result into TWO shuffles (J: Cogroup(Reshard(r,2), Repartition(r,(2k+1) mod n)); C: Cogroup(Reduce(r,+), r)), same depths as space B; space D = all histories R·d·w, d one of the eight direct ops D A B O Q U J C (O = Reshard(r,1), a ONE-shard consumer; Q/U on program s1 are 1-shard Repartitions), w over {P0 H0 X0 O0, K0 on the cluster} containing at least one P0 or H0, same depths as space B; space F (cluster only) = R, then F<v><n> = Discard(r0) during which the Worker.Discard RPC of the n-th task (n = 1..number of tasks of the result) FAILS in variant v (T: transport error on every attempt, machine alive, Discard context of 300 ms expires during the retries; B: machine dies before the request arrives; A: handler ran, reply lost, machine dies), then a word over {P0 H0 S0 X0}: quick all words of length 1 plus P0·P0, X0·P0, X0·S0, S0·P0, thorough all words up to the depth; the follow-ups must end with the model rows or (scans) an error, never hang (60 s watchdog per history, reported only if it hangs 3 of 3 times AND the same history with a fault-free Discard completes) (every direct op followed by the pipelined and the shuffling consumer, with and without Discard/Kill/1-shard Reshard in between). To keep the cluster part affordable (about 0.5 CPU-seconds per history) space A is one level less deep on the cluster for all programs (quick) / for s3 and sh (thorough), and spaces B, C, D one level less deep for the 1-shard program s1 and for sh (both tiers), space B in the quick tier also for s2 (full depth on the 3-shard program s3); direct redistributions are not mixed with P/H/second results. Cluster: verifsystem, 2 procs/machine, Parallelism(4), fast retries, keepalive 20/200/100 ms, ProbationTimeout 0.5 s, DoShuffleReaders=false; an error/hang signature is reported only when one of its simplest histories reproduces it 3 of 3 times, a wrong-rows signature on its first occurrence (re-executed, reproduction count recorded)",
+		"rule":                      "(plus kind vsys1: space A without Kill on a ONE-machine cluster, Parallelism(2), programs s2 and sh, one level less deep: recomputation lands on the machine that ran the task before) four spaces of histories, each history replayed in a fresh session (state de-duplication is used for counting only). Space A = all histories over the general alphabet (no direct redistribution) up to the depth in the depth table; space B = all histories R·w, w over five DIFFERENT direct redistributions of r0 plus Discard and (cluster) Kill, containing at least one direct redistribution, up to the depth in the table, so that every ordered pair of direct re-shuffles of one result occurs, also with a Discard or Kill in between; space C = all histories R·w, w over {J0 C0 Q0 X0, K0 on the cluster} containing at least one J0 or C0, where J/C are ONE Func that sends the result into TWO shuffles (J: Cogroup(Reshard(r,2), Repartition(r,(2k+1) mod n)); C: Cogroup(Reduce(r,+), r)), same depths as space B; space D = all histories R·d·w, d one of the eight direct ops D A B O Q U J C (O = Reshard(r,1), a ONE-shard consumer; Q/U on program s1 are 1-shard Repartitions), w over {P0 H0 X0 O0, K0 on the cluster} containing at least one P0 or H0, same depths as space B; space F (cluster only) = R, then F<v><n> = Discard(r0) during which the Worker.Discard RPC of the n-th task (n = 1..number of tasks of the result) FAILS in variant v (T: transport error on every attempt, machine alive, Discard context of 300 ms expires during the retries; B: machine dies before the request arrives; A: handler ran, reply lost, machine dies), then a word over {P0 H0 S0 X0}: quick all words of length 1 plus P0·P0, X0·P0, X0·S0, S0·P0, thorough all words up to the depth; the follow-ups must end with the model rows or (scans) an error, never hang (60 s watchdog per history, reported only if it hangs 3 of 3 times AND the same history with a fault-free Discard completes) (every direct op followed by the pipelined and the shuffling consumer, with and without Discard/Kill/1-shard Reshard in between). To keep the cluster part affordable (about 0.5 CPU-seconds per history) space A is one level less deep on the cluster for all programs (quick) / for s3 and sh (thorough), and spaces B, C, D one level less deep for the 1-shard program s1 and for sh (both tiers), space B in the quick tier also for s2 (full depth on the 3-shard program s3); direct redistributions are not mixed with P/H/second results. Cluster: verifsystem, 2 procs/machine, Parallelism(4), fast retries, keepalive 20/200/100 ms, ProbationTimeout 0.5 s, DoShuffleReaders=false; an error/hang signature is reported only when one of its simplest histories reproduces it 3 of 3 times, a wrong-rows signature on its first occurrence (re-executed, reproduction count recorded)",
 	}
 
 	// ---- layer S
